@@ -41,10 +41,12 @@ CHECKS = {
             "Published pots: strictly increasing levels, totals from all players, eligible = non-folded who reached the level listed with "
             "the per-pot amount, strictly shrinking eligible sets, totals sum to all chips; exhaustive small-scope vectors in every "
             "insertion order and every RoundClosed/GameClosed state of real play."),
-    "C07": ("spec/ResumeTrace.tla: in-memory vs re-hydrated-from-JSON vs NativeBackend vs second run, in lock-step on real hands",
+    "C07": ("spec/ResumeTrace.tla + spec/TableGameTrace.tla: in-memory vs re-hydrated-from-JSON vs NativeBackend vs second run vs the table layer, in lock-step on real hands",
             "Three instances driven by the same deck and script (re-hydration before every call and at every scripted cut point, the stateless "
             "backend for every call) stay equal after every call incl. refused ones, with equal errors; the backend leaves its input untouched; "
-            "a second in-memory run is identical. In the model re-hydration is a stuttering step enabled at every wait point."),
+            "a second in-memory run is identical; whole hands driven through table/game.go (ready group, auto-next, every call through the "
+            "stateless backend) stay equal to an in-memory game and conform to the model TableGame.tla. In the model re-hydration is a "
+            "stuttering step enabled at every wait point."),
     "C08": ("spec/SeatProps.tla C08_positions + late-joiner history tracking, on the real SeatManager's own state graph and histories",
             "Positions after every successful Next and the late-joiner rule (tracked from the join while the other seats stay put) as TLA+ "
             "predicates; MCSeat checks the precise model for all histories on 3 seats (4, 5 thorough); the real manager's reachable graph is "
@@ -76,7 +78,8 @@ CHECKS = {
     "C18": ("spec/SeatProps.tla C18_* incl. concurrent Join episodes under a decided schedule (gate hook) + SeatJoinConc.tla",
             "Join/Leave/any-seat semantics, seated = joins - leaves, no panic on any call incl. out-of-range seats; concurrent joins: one "
             "goroutine is held between check and commit by the verif gate hook while the others must block on the mutex; the episode "
-            "predicates are order-free; SeatJoinConc model-checks all interleavings of Lock/Check/Commit/Unlock."),
+            "predicates are order-free; SeatJoinConc model-checks all interleavings of Lock/Check/Commit/Unlock; match.Table (match/table.go) "
+            "is driven as a client of the seat manager (Join, ApplySeatChanges with callbacks)."),
     "C19": ("spec/RegProps.tla C19_* over a sweep of all settings 2<=min<=max<=6 (10 thorough) x registrant counts x batch modes",
             "No request/assign/sync hand-out ever makes a table exceed the maximum, no table before the start or before min registrants, "
             "initial tables get at least min; MCReg for small settings, sweep + random tournaments on the real regulator."),
